@@ -103,4 +103,39 @@ def savesFollowCommit : Bool → List Ev → Bool
   | inReaction, .act (.save ..) :: rest => inReaction && savesFollowCommit inReaction rest
   | inReaction, .act _ :: rest => savesFollowCommit inReaction rest
 
+/-! ## the vncdo process: the whole client plus the exit status (command.py:59-77, 509-513) -/
+
+structure Proc where
+  st : St SysSt
+  exit : ExitSt := {}
+  /-- the transport has not reported the loss of the connection yet -/
+  up : Bool := true
+
+/-- everything that can happen to a vncdo process once the TCP connection exists -/
+inductive ProcIn
+  | recv (chunk : Bytes)
+  | fire                          -- the next delayed call of the script (pause, drag step)
+  | lost (clean : Bool)           -- clientConnectionLost: ConnectionDone (clean) or anything else
+  | timeout                       -- the --timeout timer
+deriving DecidableEq
+
+def procStep (p : Proc) : ProcIn → Proc × List Ev
+  | .recv c => if p.up then (let r := feed sysMachine p.st c; ({ p with st := r.1 }, r.2.1)) else (p, [])
+  | .fire => let r := sysFire p.st; ({ p with st := r.1 }, r.2)
+  | .lost clean =>
+    if p.up then ({ p with up := false, exit := exitStep p.st.s.app.completed p.exit p.st.s.app.now (.lost clean) }, [])
+    else (p, [])
+  | .timeout => ({ p with exit := exitStep p.st.s.app.completed p.exit p.st.s.app.now .timeout }, [])
+
+def procRun (p : Proc) : List ProcIn → Proc × List Ev
+  | [] => (p, [])
+  | i :: is =>
+    let r := procStep p i
+    let r' := procRun r.1 is
+    (r'.1, r.2 ++ r'.2)
+
+/-- a freshly connected vncdo: nothing received, script not started, status 1 -/
+def Proc.start (cfg : Cfg) (zq : List (Option Bytes)) (cv : Canvas) (env : Env) (cmds : List Cmd) : Proc :=
+  { st := ⟨⟨RSt.init cfg zq, cv, { env := env, cmds := cmds }⟩, []⟩ }
+
 end Vnc
